@@ -309,6 +309,61 @@ def oracle_sides(ent, d):
     return None
 
 
+def oracle_c09_sides(ent):
+    """the documented choice rule (highest score, then fewer errors, then the adapter given first; rounds; linked adapters), applied to
+    each mate with that mate's adapters: candidates are the single adapters' own answers, the cutter must agree"""
+    from . import sysprops
+
+    pcfg, pairs = ent["cfg"], ent["pairs"]
+    if pcfg.base.revcomp or pcfg.pair_adapters:
+        return None
+    for side in (1, 2):
+        c = single_side(pcfg, side)
+        if not c.adapters:
+            continue
+        why = sysprops.oracle_c09({"cfg": c, "reads": [pr[side - 1] for pr in pairs]})
+        if why:
+            return "R%d: %s" % (side, why)
+    return None
+
+
+def oracle_side_stats(ent, d):
+    """C20 for pairs, 'for R1 and R2 separately': the adapter statistics reported for each mate are those of the single-end run of
+    that mate with the options documented for it (matches, histograms of removed lengths by error count, split into 5'/3',
+    bases in front of 3' matches); the 'expect' column depends on the read count and GC content of the whole run and is left out"""
+    pcfg, pairs, res = ent["cfg"], ent["pairs"], ent["impl"]
+    b = pcfg.base
+    if b.revcomp or pcfg.pair_adapters or res.get("report") is None:
+        return None
+
+    def strip(ads):
+        out = []
+        for a in ads or []:
+            a = json.loads(json.dumps(a))
+            for end in ("five_prime_end", "three_prime_end"):
+                if a.get(end):
+                    a[end].pop("dominant_adjacent_base", None)
+                    a[end]["trimmed_lengths"] = [{k: v for k, v in row.items() if k != "expect"} for row in a[end]["trimmed_lengths"]]
+            out.append(a)
+        return out
+
+    for side in (1, 2):
+        c = single_side(pcfg, side)
+        c.info_file = False
+        # what comes after the adapters does not touch the statistics; filters neither (they sit behind the modifiers)
+        r = S.run_impl(c, [pr[side - 1] for pr in pairs], d)
+        if r["exit"] != 0 or r.get("report") is None:
+            return None
+        want = strip(r["report"].get("adapters_read1"))
+        got = strip(res["report"].get("adapters_read%d" % side))
+        if got != want:
+            for x, y in zip(got, want):
+                if x != y:
+                    return "adapter statistics of R%d: the paired run reports %r, the single-end run of that mate %r" % (side, x, y)
+            return "adapter statistics of R%d: %d adapters in the paired report, %d in the single-end run of that mate" % (side, len(got), len(want))
+    return None
+
+
 def reduced_pcfg(pcfg, upto):
     """the paired option set cut down to the read-modifying steps up to [upto] ('cut', 'qual', 'adapters', 'polya'), with every
     filter, redirect, renaming and later step removed: what reaches / leaves one step can then be read off the outputs"""
@@ -493,11 +548,12 @@ PAIRED_ORACLES = {
     "C03": lambda ent, d: oracle_slices(ent, d),
     "C04": lambda ent, d: oracle_sync(ent) or oracle_step_counts(ent, d),
     "C05": lambda ent, d: oracle_sync(ent) or oracle_pair_adapters(ent) or oracle_decision(ent, d),
-    "C09": lambda ent, d: oracle_sides(ent, d),
+    "C09": lambda ent, d: oracle_sides(ent, d) or oracle_c09_sides(ent),
     "C10": lambda ent, d: oracle_sides(ent, d) or oracle_late_shorten(ent, d),
     "C11": lambda ent, d: oracle_decision(ent, d),
     "C15": lambda ent, d: oracle_sync(ent) or oracle_pdemux(ent, d) or oracle_decision(ent, d),
     "C16": lambda ent, d: oracle_paired_revcomp(ent),
+    "C20": lambda ent, d: oracle_side_stats(ent, d),
 }
 PAIRED_FOCUS = {
     "C03": ("action", "adapters", "revcomp", "cut", "qual", "length", "times", "pairactions:0.2"),
@@ -508,6 +564,7 @@ PAIRED_FOCUS = {
     "C11": ("filters", "pairfilter", "adapters", "onesided:0.3"),
     "C15": ("demux", "combinatorial", "adapters", "times"),
     "C16": ("revcomp", "adapters", "times", "action"),
+    "C20": ("adapters", "adapters2:0.7", "times", "action", "onesided:0.3"),
 }
 
 
